@@ -14,9 +14,10 @@ Correspondence (`corr`), Lean model `Jaqal.Emulator` (ops `run_gates`, `apply_ga
                            chains, subcircuit blocks, loops, parallel blocks); exact comparison of `state_vector`
                            (Gaussian-dyadic matrices only, IEEE arithmetic is exact) and probabilities to 1e-12.
   * apply_gate           – single step: v_in / v_out taken from the real emulator (prefix / prefix+gate).
-  * run_gates_irregular  – inputs outside the hypotheses of the theorems that the code nevertheless accepts:
-                           duplicated qubit arguments, a matrix larger than 2^|qubits| (silently accepted), a matrix
-                           that is too small (IndexError ↔ model `null`), a non-unitary matrix.
+  * run_gates_irregular  – matrices of the wrong shape / not unitary, which the code never checks (distinct qubits):
+                           a matrix larger than 2^|qubits| (silently accepted), a matrix that is too small
+                           (IndexError ↔ model `null`), a non-unitary matrix.  Duplicated qubit arguments can no longer
+                           reach the loop nest through the public path (see the oracle below), so they are not in corr.
 
 Direct oracles (`oracle`), property C03 evaluated on the real code alone:
   * kron_reference            – state_vector == U_k … U_1 e0, every U_j applied with numpy `tensordot` on the axes of
@@ -26,6 +27,9 @@ Direct oracles (`oracle`), property C03 evaluated on the real code alone:
                                 the same states as the flat program written on `r[i]` directly.
   * idle_and_no_unitary_noop  – removing idle gates (`add_idle_gates`) and gates without a unitary changes nothing.
   * parallel_order            – permuting the branches of parallel blocks (disjoint qubits) changes nothing.
+  * duplicate_qubit_is_jaqalerror – a gate whose qubit arguments overlap (directly, through an alias, through macro
+                                arguments, inside loops / parallel blocks) makes the real pipeline raise JaqalError,
+                                while the same program with distinct qubits runs.
   * let_override              – `parse_jaqal_string(..., override_dict=ov, expand_let=True)` and `fill_in_let(c, ov)`
                                 make run_jaqal_circuit use the overriding values (integer phase argument of P/PF, loop
                                 counts): same states as the program with the overriding values written in the lets.
@@ -51,6 +55,7 @@ from jaqalpaq.core import GateDefinition, Parameter, ParamType
 from jaqalpaq.core.gatedef import add_idle_gates
 from jaqalpaq.core.algorithm import fill_in_let
 from jaqalpaq.core.result import ProbabilisticSubcircuit
+from jaqalpaq.error import JaqalError
 from jaqalpaq.parser import parse_jaqal_string
 from jaqalpaq.emulator.unitary import UnitarySerializedEmulator
 
@@ -192,7 +197,8 @@ def run_pipeline(text, ov=None, ov_mode=None):
 def run_emulator_raw(text):
     """Emulator job without sampling and with the probability-sum check lifted (irregular inputs leave the state
     non-normalised; the loop nest under test has already run when `ProbabilisticSubcircuit` complains).
-    Returns the list of state vectors, or the string 'IndexError'."""
+    Returns the list of state vectors, the string 'IndexError' (numpy index out of range inside the loop nest),
+    or 'unexpected <Type>: <message>' for anything else.  Never raises."""
     _env()
     old = ProbabilisticSubcircuit.CUTOFF_FAIL
     ProbabilisticSubcircuit.CUTOFF_FAIL = float("inf")
@@ -200,11 +206,12 @@ def run_emulator_raw(text):
         with warnings.catch_warnings(), np.errstate(all="ignore"):
             warnings.simplefilter("ignore")
             c = parse_jaqal_string(text, inject_pulses=GATES_IDLE, autoload_pulses=False)
-            try:
-                job = UnitarySerializedEmulator()(c)
-            except IndexError:
-                return "IndexError"
+            job = UnitarySerializedEmulator()(c)
             return [np.array(sc.state_vector) for sc in job.subcircuits]
+    except IndexError:
+        return "IndexError"
+    except Exception as e:
+        return f"unexpected {type(e).__name__}: {e}"
     finally:
         ProbabilisticSubcircuit.CUTOFF_FAIL = old
 
@@ -559,7 +566,7 @@ def call_driver(driver, reqs):
 def impl_run(case):
     """impl JSON of a `run` / `irregular` case: per subcircuit the state vector (or "IndexError")."""
     if case["kind"] == "irregular":
-        r = run_emulator_raw(case["text"])
+        r = run_emulator_raw(case["text"])  # never raises
         return r if isinstance(r, str) else [vec_json(v) for v in r]
     return [vec_json(v) for v, _ in run_pipeline(case["text"])]
 
@@ -623,12 +630,87 @@ def oracle_override(case):
     return True, ""
 
 
+def oracle_duplicate(case):
+    """`text` (overlapping qubit arguments) must raise JaqalError; `other` (distinct qubits) must run."""
+    try:
+        run_pipeline(case["other"])
+    except Exception as e:
+        return False, f"control program with distinct qubits failed: {type(e).__name__}: {e}"
+    try:
+        st = run_pipeline(case["text"])
+    except JaqalError as e:
+        return True, str(e)
+    except Exception as e:
+        return False, f"{type(e).__name__} instead of JaqalError: {e}"
+    return False, "accepted; states " + json.dumps([vec_json(v) for v, _ in st])[:300]
+
+
+def gen_duplicate_case(rng):
+    names = [g for g in REGULAR + ["N2", "RND2", "SMALL2"] if base_sig(g).count("q") >= 2]
+    g = rng.choice(names)
+    sig = base_sig(g)
+    m = sig.count("q")
+    nq = rng.randint(m, 5)
+    good = rng.sample(range(nq), m)
+    bad = list(good)
+    i, j = rng.sample(range(m), 2)
+    bad[i] = bad[j]
+    if m == 3 and rng.random() < 0.2:
+        bad = [bad[j]] * 3
+    ints = [rng.randrange(8) for _ in range(sig.count("i"))]
+    mode = rng.choice(["direct", "alias", "single_alias", "macro", "macro_alias"])
+    wrap = rng.choice(["none", "none", "loop", "par", "block"])
+    header = [f"register r[{nq}]"]
+    lo = rng.randint(0, min(bad + good))
+    if "alias" in mode:
+        header.append(f"map a r[{lo}:{nq}]")
+        header.append(f"map s r[{bad[j]}]")
+
+    def refs(qs):
+        out = [f"r[{q}]" for q in qs]
+        if mode in ("alias", "macro_alias"):
+            out[i] = f"a[{qs[i] - lo}]"          # one of the two clashing positions goes through the alias
+        elif mode == "single_alias":
+            out[j] = "s" if qs[j] == bad[j] else out[j]
+            if qs is bad:
+                out[i] = f"a[{qs[i] - lo}]" if rng.random() < 0.5 else out[i]
+        return out
+
+    def stmt(qs):
+        r = refs(qs)
+        ri, ii = iter(r), iter(ints)
+        if mode.startswith("macro"):
+            return " ".join(["MD"] + r + [str(x) for x in ints])
+        return " ".join([g] + [next(ri) if c == "q" else str(next(ii)) for c in sig])
+
+    if mode.startswith("macro"):
+        pq = [f"x{k}" for k in range(m)]
+        pi = [f"k{k}" for k in range(len(ints))]
+        ri, ii = iter(pq), iter(pi)
+        header.append("macro MD " + " ".join(pq + pi) + " { " + " ".join([g] + [next(ri) if c == "q" else next(ii) for c in sig]) + " }")
+
+    def body(qs):
+        st = stmt(qs)
+        free = [q for q in range(nq) if q not in qs]
+        if wrap == "loop":
+            st = f"loop 2 {{ {st} }}"
+        elif wrap == "par" and free:
+            st = f"< {st} | X r[{free[0]}] >"
+        elif wrap == "block":
+            return ["subcircuit {", "X r[0]", st, "}"]
+        return ["prepare_all", "X r[0]", st, "measure_all"]
+
+    mk = lambda qs: "\n".join(header + body(qs)) + "\n"
+    return {"kind": "duplicate_qubit_is_jaqalerror", "mode": mode, "wrap": wrap, "text": mk(bad), "other": mk(good)}
+
+
 ORACLES = {
     "kron_reference": oracle_kron,
     "alias_same_as_direct": oracle_pair,
     "idle_and_no_unitary_noop": oracle_pair,
     "parallel_order": oracle_pair,
     "let_override": oracle_override,
+    "duplicate_qubit_is_jaqalerror": oracle_duplicate,
 }
 
 
@@ -726,30 +808,38 @@ def run(seed: int, n: int, driver: str = DEFAULT_DRIVER, thorough: bool = False)
             pre.append({"g": g, "qs": rng.sample(range(nq), s.count("q")), "a": [rng.randrange(8) for _ in range(s.count("i"))]})
         last = pre.pop() if pre else {"g": "X", "qs": [0], "a": []}
         text = flat_text(nq, [pre, pre + [last]])
-        (vin, _), (vout, _) = run_pipeline(text)
-        case = {"kind": "apply", "text": text, "n": nq, "gate": last, "vin": vec_json(vin)}
-        add_corr("apply_gate", case, vec_json(vout))
+        try:
+            (vin, _), (vout, _) = run_pipeline(text)
+            case = {"kind": "apply", "text": text, "n": nq, "gate": last, "vin": vec_json(vin)}
+            add_corr("apply_gate", case, vec_json(vout))
+        except Exception as e:
+            bump("impl_exception")
+            case = {"kind": "apply", "text": text, "n": nq, "gate": last, "vin": vec_json(kron_reference(nq, pre))}
+            add_corr("apply_gate", case, f"unexpected {type(e).__name__}: {e}")
 
-    # ---- 3. irregular inputs (outside the hypotheses of the theorems; the code accepts them)
+    # ---- 3. irregular matrices (wrong shape / not unitary; the code never checks), distinct qubits only
     for _ in range(max(1, n // 3)):
-        nq = rng.randint(1, 4)
+        nq = rng.randint(2, 4)
         sub = []
         for _ in range(rng.randint(1, 6)):
             kind = rng.random()
             names = REGULAR + NOUNITARY if kind < 0.5 else (["BIG1", "RND2"] if kind < 0.85 else ["SMALL2"])
-            names = [x for x in names if base_sig(x).count("q") <= nq or kind >= 0.5]
-            g = rng.choice(names)
+            g = rng.choice([x for x in names if base_sig(x).count("q") <= nq])
             s = base_sig(g)
-            dup = rng.random() < 0.3 or s.count("q") > nq
-            qs = [rng.randrange(nq) for _ in range(s.count("q"))] if dup else rng.sample(range(nq), s.count("q"))
-            sub.append({"g": g, "qs": qs, "a": [rng.randrange(8) for _ in range(s.count("i"))]})
+            sub.append({"g": g, "qs": rng.sample(range(nq), s.count("q")), "a": [rng.randrange(8) for _ in range(s.count("i"))]})
         case = {"kind": "irregular", "text": flat_text(nq, [sub]), "n": nq, "subs": [sub]}
         impl = impl_run(case)
-        bump("irregular:IndexError" if impl == "IndexError" else "irregular:state")
-        bump("irregular:with_duplicate_qubits", int(any(len(set(g["qs"])) < len(g["qs"]) for g in sub)))
+        bump("irregular:" + (impl if impl == "IndexError" else "unexpected" if isinstance(impl, str) else "state"))
         add_corr("run_gates_irregular", case, impl)
 
-    # ---- 4. thorough: every qubit tuple (duplicates included) for every gate with a matrix, n up to 6
+    # ---- 3b. overlapping qubit arguments are rejected by the real pipeline
+    for _ in range(max(1, n // 3)):
+        case = gen_duplicate_case(rng)
+        bump("duplicate:" + case["mode"])
+        bump("duplicate_wrap:" + case["wrap"])
+        add_oracle("duplicate_qubit_is_jaqalerror", case)
+
+    # ---- 4. thorough: every tuple of distinct qubits for every gate with a matrix, n up to 6
     if thorough:
         for nq in range(1, 7):
             prefix = []
@@ -761,26 +851,35 @@ def run(seed: int, n: int, driver: str = DEFAULT_DRIVER, thorough: bool = False)
                 prefix.append({"g": "MIX3", "qs": [nq - 1, 0, 1], "a": []})
             for name in REGULAR + ["BIG1"]:
                 s = base_sig(name)
-                tuples = list(itertools.product(range(nq), repeat=s.count("q")))
+                tuples = list(itertools.permutations(range(nq), s.count("q")))
                 for chunk in [tuples[k:k + 40] for k in range(0, len(tuples), 40)]:
                     gs = [{"g": name, "qs": list(t), "a": [3] * s.count("i")} for t in chunk]
                     text = flat_text(nq, [prefix] + [prefix + [g] for g in gs])
                     vs = run_emulator_raw(text)
-                    for g, vout in zip(gs, vs[1:]):
+                    for k, g in enumerate(gs):
+                        bad = isinstance(vs, str)
                         case = {"kind": "apply", "text": flat_text(nq, [prefix, prefix + [g]]), "n": nq, "gate": g,
-                                "vin": vec_json(vs[0]), "raw": True}
-                        add_corr("apply_gate", case, vec_json(vout))
+                                "vin": vec_json(kron_reference(nq, prefix) if bad else vs[0]), "raw": True}
+                        add_corr("apply_gate", case, vs if bad else vec_json(vs[k + 1]))
                         bump("thorough_apply")
 
     # ---- model side, one batch
-    outs = call_driver(driver, reqs)
+    try:
+        outs = call_driver(driver, reqs)
+        derr = None
+    except Exception as e:  # no driver / driver crash: every comparison is recorded as a disagreement
+        outs, derr = [], f"driver failure {type(e).__name__}: {e}"
+        bump("driver_failure")
     pos = 0
     for op, case, impl, k in pending:
         mouts = outs[pos:pos + k]
-        model = model_view(case, mouts)
+        try:
+            model = derr if derr else model_view(case, mouts)
+        except Exception as e:
+            model = f"model output not understood {type(e).__name__}: {e}: {json.dumps(mouts)[:200]}"
         pos += k
         corr[op]["cases"] += 1
-        if model == impl and op == "run_gates" and id(case) in probs_of:
+        if model == impl and op == "run_gates" and id(case) in probs_of and not isinstance(impl, str):
             # probabilities: exact dyadic |amplitude|^2 of the model against the reported floats
             mp = [[int(a) / 2 ** int(b) for a, b in o["probs"]] for o in mouts]
             ip = probs_of[id(case)]
